@@ -47,7 +47,8 @@ def enc_value(v):
 
 
 def enc_tdef(t):
-    return [KINDS.index(t["kind"]), t["scalar"], t["doid"], t["nnotif"], 1 if t["static"] else 0] + enc_list(t["content"])
+    return [KINDS.index(t["kind"]), t["scalar"], t["doid"], t["nnotif"], 1 if t["static"] else 0, t["cmp"], t["label"]] + \
+        enc_list(t["content"])
 
 
 def enc_inst(i):
@@ -243,13 +244,6 @@ class World:
             else:
                 raise ValueError(o["how"])
         sub = type(HasTraits)("Sub", (base,), ns2)
-        if wild:
-            # resolve every wildcard name once per class on a throw-away instance (the name with the static handler
-            # first): from here on they are ordinary class traits, as the declared tables list them
-            for cls in (base, sub):
-                warm = cls()
-                for n in sorted(wild["names"], key=lambda n: (n not in wild["static"], n)):
-                    getattr(warm, "t%d" % n)
         return [base, sub]
 
     # ----- trait definitions as observed
@@ -265,14 +259,14 @@ class World:
     def tdef(self, ct, n, cls_index, shadow_kind=None):
         notifiers = ct._notifiers(False) or []
         static = any(isinstance(x, StaticTraitChangeNotifyWrapper) for x in notifiers)
-        t = {"kind": "KEvent", "content": [], "scalar": 0, "doid": 0, "nnotif": len(notifiers), "static": static}
+        t = {"kind": "KEvent", "content": [], "scalar": 0, "doid": 0, "nnotif": len(notifiers), "static": static,
+             "cmp": 2, "label": 0}
         label = getattr(ct, "label", None)
-        if label is not None:
-            # the `label` metadata of the definition, carried in the scalar field (1000 * code): a definition whose
-            # metadata changed is a changed definition
-            t["scalar"] = 1000 * (int(label) if str(label).isdigit() else 999)
-        if ct.type == "event" or n is None or n < 0:      # "<name>_items" and trait_added traits
+        if label is not None:        # the `label` metadata of the definition (0: unset)
+            t["label"] = int(label) if str(label).isdigit() else 999
+        if ct.type == "event" or n is None or n in (-1, -2):      # "<name>_items" and trait_added traits
             return t
+        t["cmp"] = {ComparisonMode.none: 0, ComparisonMode.identity: 1, ComparisonMode.equality: 2}[ct.comparison_mode]
         dvt, dv = ct.default_value()
         declared = self.cfg.get(n)
         over = self.sub.get(n) if cls_index == 1 else None
@@ -294,7 +288,7 @@ class World:
         elif dvt == 8 and declared is not None and shadow_kind is None:
             q = getattr(getattr(dv, "__func__", dv), "__qualname__", "")
             if q == "BaseTuple._get_default_value":
-                t["kind"], t["content"], t["scalar"] = "KTuple", list(declared["content"]), declared["scalar"] + t["scalar"]
+                t["kind"], t["content"], t["scalar"] = "KTuple", list(declared["content"]), declared["scalar"]
             elif q == "Union._get_default_value":
                 t["kind"], t["content"] = "KUnion", list(declared["content"])
             else:
@@ -317,6 +311,17 @@ class World:
                 rows.append([n, self.tdef(ct, n, ci)])
                 if n < 60 and (("t%d" % n) not in cts or ("t%d" % n) not in bts):   # (wildcard names live in cts only)
                     rows.append([n + 2000, self.tdef(ct, n, ci)])     # defined in only one of the two class dictionaries
+            wild = self.case.get("wild")
+            if wild:
+                # the definition a wildcard name with static handlers will get (the class defines _tN_changed), and
+                # the prefix trait itself
+                proto = cls.__prefix_traits__[""]
+                for n in range(60, 70):
+                    if hasattr(cls, "_t%d_changed" % n):
+                        t = self.tdef(proto, -3, ci)
+                        t["nnotif"], t["static"] = t["nnotif"] + 1, True
+                        rows.append([n + 3000, t])
+                rows.append([-3, self.tdef(proto, -3, ci)])
             rows.append([-1, self.tdef(cts["trait_added"], -1, ci)])
             out.append(rows)
         return out
@@ -413,6 +418,11 @@ class World:
             ret = getattr(obj, a)
         elif k == "Assign":
             setattr(obj, a, self.payload(self.kind_of(i, op[2]), op[3], op[4]))
+        elif k == "SetMeta":
+            # metadata of a definition that add_trait gave to this instance alone
+            if a not in obj._instance_traits() or a in type(obj).__dict__["__class_traits__"]:
+                raise RuntimeError("not a trait added to this instance")
+            obj.trait(a).label = str(op[3])
         elif k == "AssignFrom":
             src = self.insts[op[3]]
             if a not in src.__dict__:
